@@ -8,32 +8,37 @@
 -/
 import Cgp.Drive.Gw
 import Cgp.Drive.Tk
+import Cgp.Drive.Gs
 open Cgp Cgp.Tok
 
 inductive World where
   | none
   | gw (s : Cgp.Drive.Gw.GwS)
   | tk (s : Cgp.Drive.Tk.TkS)
+  | gs (s : Cgp.Drive.Gs.GsS)
 
 structure Out where
   obs : String
   kind : String
 
-def World.step (w : World) (t : List String) : World × Out :=
+def World.step (w : World) (t : List String) (implObs : String) : World × Out :=
   match w with
   | .none => (w, ⟨"parse-error:no-scenario", "parse-error"⟩)
   | .gw s => let (s', o) := Cgp.Drive.Gw.step s t; (.gw s', ⟨o.obs, o.kind⟩)
   | .tk s => let (s', o) := Cgp.Drive.Tk.step s t; (.tk s', ⟨o.obs, o.kind⟩)
+  | .gs s => let (s', o) := Cgp.Drive.Gs.step s t implObs; (.gs s', ⟨o.obs, o.kind⟩)
 
 def World.known : World → List String
   | .none => []
   | .gw _ => Cgp.Drive.Gw.known
   | .tk _ => Cgp.Drive.Tk.known
+  | .gs _ => Cgp.Drive.Gs.known
 
 def newWorld (cluster : String) : World :=
   match cluster with
   | "gw" => .gw {}
   | "tk" => .tk {}
+  | "gs" => .gs {}
   | _ => .none
 
 structure RunAcc where
@@ -76,8 +81,8 @@ partial def loop (h : IO.FS.Stream) (acc : RunAcc) : IO RunAcc := do
       if acc.diverged then loop h { acc with skipped := acc.skipped + 1 }
       else
         let toks := opS.splitOn " "
-        let (w', out) := acc.world.step toks
         let implC := filterObs acc.world.known implObs
+        let (w', out) := acc.world.step toks implC
         let acc := { acc with ops := acc.ops + 1, cov := bump acc.cov (toks.head! ++ "|" ++ cls0 ++ "|" ++ out.kind) }
         if out.obs = implC then
           loop h { acc with world := w', agree := acc.agree + 1 }
